@@ -103,6 +103,10 @@ func NewPipeline() (*Pipeline, error) {
 
 func (pipeline *Pipeline) interpolateParameters() {
 	for _, input := range pipeline.Inputs {
+		if input == nil {
+			continue
+		}
+
 		// An error can only happen with the input isn't descriptive.
 		// This case should have already been handled before
 		// interpolateParameters() is called.
@@ -207,6 +211,10 @@ func (pipeline *Pipeline) LoadSchemas(ctx context.Context) (ast.Schemas, error) 
 
 	// Parse inputs
 	for _, input := range pipeline.Inputs {
+		if input == nil {
+			return nil, fmt.Errorf("empty input")
+		}
+
 		schemas, err := input.LoadSchemas(ctx)
 		if err != nil {
 			return nil, err
@@ -238,6 +246,8 @@ func (pipeline *Pipeline) OutputLanguages() (languages.Languages, error) {
 
 	for _, output := range pipeline.Output.Languages {
 		switch {
+		case output == nil:
+			return nil, fmt.Errorf("empty language configuration")
 		case output.Go != nil:
 			outputs[golang.LanguageRef] = golang.New(*output.Go)
 		case output.Java != nil:
